@@ -7,8 +7,9 @@ Correspondence (real code from $VERIF_REPO against the extracted coq/Model/Hosts
             scripted hostwatch socket (server.start_hostwatch, server.io and ssnet.runonce replaced);
   client    the real onhostlist closure, reached by running the real client._main up to its main
             loop, with the real FirewallClient.sethostip writing into a buffer;
-  helper    the real firewall.main fed the HOST lines the client wrote, real rewrite_etc_hosts on
-            a scratch hosts file (firewall.HOSTSFILE)."""
+  helper    the real firewall.main fed the HOST lines the client wrote (a recording BytesIO as its stdin:
+            the limit it passes to readline is observed there and handed to the model), real
+            rewrite_etc_hosts on a scratch hosts file (firewall.HOSTSFILE)."""
 import builtins
 import io
 import os
@@ -21,7 +22,9 @@ PROP = "C19"
 RULE = ("names x addresses x cuttings: adversarial names (separators, '#', blanks, tabs, newlines, NUL, non-ASCII, "
         "leading dot, commas, 1..70000 characters) and digit/dot garbage addresses through the real scanner functions; "
         "every cutting of short scanner streams and random cuttings (reads of 1..4096 bytes) of long ones through the real "
-        "hostwatch_ready; arbitrary host-list payloads through the real onhostlist/sethostip and the real helper; a case is "
+        "hostwatch_ready; arbitrary host-list payloads through the real onhostlist/sethostip and the real helper, including well-formed "
+        "names of 107..60000 characters (HOST lines across every plausible reader limit), all compared with the model reading with the "
+        "limit observed at the real helper's stdin; a case is "
         "non-trivial when at least one record is emitted / relayed / filtered; distinct by content hash")
 TRUSTED_BASE = [
     "modelled, not verified: CPython str/bytes split/strip/partition/%-formatting, re on the 6 patterns of Appendix D "
@@ -30,7 +33,10 @@ TRUSTED_BASE = [
     "the scripted socket / file objects of harness/props/c19.py stand for the hostwatch socketpair, the ssh pipe and the helper's stdin",
 ]
 ASSUMPTIONS = [
-    "one readline(128) of the helper returns a whole HOST line: len(name)+len(address) <= 121 (longer lines: F5, property C13)",
+    "the helper reads its input with stdin.readline() WITHOUT a limit (Gen/Consts.fw_readline_limit = None, regenerated from "
+    "firewall.py and observed again at the helper's stdin on every run): HOST lines of every length are covered; if the source reads "
+    "with a limit again the unconditional theorems stop checking and only the `_any_limit`/`_asfound_partial` ones (every HOST line "
+    "fits one read; as found readline(128): len(name)+len(address) <= 121, F5) remain",
     "every line written by the scanner is at most 61440 bytes (61439 + newline); a longer line makes the server's Mux.send assertion fail (F26)",
     "the remote locale encoding is UTF-8 (what sys.stdout of hostwatch writes and what its text-mode open() decodes); undecodable bytes are read as U+FFFD once pending_fixes/F24_F25.diff is applied (as found: UnicodeDecodeError, F24)",
     "order of lines inside the hosts file and the untouched foreign lines are C14's (rewrite_etc_hosts); here only the fields of each added line",
@@ -362,6 +368,30 @@ class FakeMethod:
         return False
 
 
+class RecStdin(io.BytesIO):
+    """the helper's stdin: records the limit passed to every readline and what it returned"""
+
+    def __init__(self, data):
+        io.BytesIO.__init__(self, data)
+        self.reads = []
+
+    def readline(self, *a):
+        r = io.BytesIO.readline(self, *a)
+        lim = a[0] if a and a[0] is not None and a[0] >= 0 else None
+        self.reads.append((lim, r))
+        return r
+
+
+def consts_readline_limit():
+    """fw_readline_limit as regenerated into coq/Gen/Consts.v for this run: None or an int"""
+    root = os.path.dirname(os.path.dirname(os.path.dirname(os.path.abspath(__file__))))
+    txt = open(os.path.join(root, "coq", "Gen", "Consts.v")).read()
+    m = re.search(r"Definition fw_readline_limit : option N := (None|Some (\d+))\.", txt)
+    if not m:
+        raise RuntimeError("fw_readline_limit not found in coq/Gen/Consts.v")
+    return None if m.group(1) == "None" else int(m.group(2))
+
+
 def impl_helper(work, host_bytes):
     import sshuttle.firewall as firewall
     import sshuttle.helpers as helpers
@@ -371,7 +401,7 @@ def impl_helper(work, host_bytes):
     bak = hosts + ".sbak"
     if os.path.exists(bak):
         os.unlink(bak)
-    stdin = io.BytesIO(b"ROUTES\nNSLIST\nPORTS 0,%d,0,0\nGO 0 - - 0x01 4242\n" % PORT + host_bytes)
+    stdin = RecStdin(b"ROUTES\nNSLIST\nPORTS 0,%d,0,0\nGO 0 - - 0x01 4242\n" % PORT + host_bytes)
     stdout = io.BytesIO()
     snaps = []
     real_rewrite = firewall.rewrite_etc_hosts
@@ -393,7 +423,8 @@ def impl_helper(work, host_bytes):
         helpers.log = lambda s: None
         try:
             firewall.main("fake", False)
-            st = "RUNNING" if stdin.tell() == len(stdin.getvalue()) and not _blank_tail(host_bytes) else "RETURN"
+            # main returned: at end of input (the helper of a live session would still be waiting) or on a blank read
+            st = "RUNNING" if stdin.reads and stdin.reads[-1][1] == b"" else "RETURN"
         except helpers.Fatal:
             st = "FATAL"
         except ValueError as e:
@@ -408,12 +439,27 @@ def impl_helper(work, host_bytes):
     mine = [l for l in last.split(b"\n") if MARKER in l]
     other = b"\n".join(l for l in last.split(b"\n") if MARKER not in l)
     return {"status": st, "lines": mine, "foreign_ok": other == FOREIGN.encode(),
-            "restored": final == FOREIGN.encode(), "n_snaps": len(snaps)}
+            "restored": final == FOREIGN.encode(), "n_snaps": len(snaps),
+            "limits": sorted(set(l for l, _ in stdin.reads), key=lambda x: (x is not None, x or 0))}
 
 
-def _blank_tail(host_bytes):
-    # the helper returns (as at EOF) on a line that is blank after strip()
-    return any(l.decode("latin-1").strip() == "" for l in host_bytes.split(b"\n")[:-1])
+def lim_str(lim):
+    return "-" if lim is None else str(lim)
+
+
+def delivery(ls, h):
+    """(want, have): name -> address as forwarded by the client in HOST lines / as found in the hosts file"""
+    want = {}
+    for l in ls:
+        if l.startswith(b"HOST ") and b"," in l:
+            nm, ip = l[5:].rstrip(b"\n").split(b",", 1)
+            want[nm] = ip
+    have = {}
+    for l in h["lines"]:
+        f = l.split()
+        if len(f) >= 2:
+            have[f[1]] = f[0]
+    return want, have
 
 
 LINE_RE = re.compile(rb"(\d{1,3})\.(\d{1,3})\.(\d{1,3})\.(\d{1,3}) ([-A-Za-z0-9_.]+) *# sshuttle-firewall-\d+ AUTOCREATED\Z")
@@ -772,40 +818,60 @@ def _correspondence(ctx, rng, quick, work):
             pipes.append([nm + b"," + ip + b"\n", b"after,9.9.9.9\n"])
             pipes.append([b"first,1.1.1.1\n" + nm + b"," + ip + b"\nlast,2.2.2.2\n"])
 
+    # the limit the real helper passes to stdin.readline, observed at its stdin; the model's reader gets the same one
+    probe = impl_helper(work, b"HOST probe,1.2.3.4\n")
+    if len(probe["limits"]) != 1:
+        raise RuntimeError("the helper reads its stdin with several different limits: %r" % (probe["limits"],))
+    fw_lim = probe["limits"][0]
+    ctx.extra["helper_readline_limit_in_repo"] = "none (whole lines)" if fw_lim is None else fw_lim
+    ctx.case(("helper-read-limit", fw_lim))
+    if consts_readline_limit() != fw_lim:
+        ctx.disagree("helper read limit: generated constant vs the call observed at the helper's stdin", "firewall.main",
+                     lim_str(fw_lim), lim_str(consts_readline_limit()))
+    # the model's reader (DialogueLib.chunks, extracted with the C19 model) against CPython's readline
+    rd_cases = [(rng.choice([None, fw_lim, 1, 2, 127, 128, 129, 512]),
+                 bytes(rng.choice(b"ab\n\n ,.1") for _ in range(rng.choice([0, 1, 2, 127, 128, 129, 130, 257, 600]))))
+                for _ in range(300 if quick else 3000)]
+    for (lm, sdat), o in zip(rd_cases, ctx.run_driver(["RDL %s %s" % (lim_str(lm), hx(sdat)) for lm, sdat in rd_cases])):
+        f, pieces = io.BytesIO(sdat), []
+        while True:
+            x = f.readline() if lm is None else f.readline(lm)
+            if not x:
+                break
+            pieces.append(x)
+        ctx.case(("rdl", lm, sdat), nontrivial=len(pieces) > 1)
+        if ";".join(hx(x) for x in pieces) != o:
+            ctx.disagree("readline model", "lim=%s %s" % (lim_str(lm), hx(sdat)[:200]), ";".join(hx(x) for x in pieces)[:300], o[:300])
+
     def run_pipes(got_host_list, pfile):
         return [client_payloads(got_host_list, pfile, ps) for ps in pipes]
     cimpl = with_client(run_pipes)
-    plines = ["PIPE %s %s %s" % ("1" if mode == "repaired" else "0", hx(MARKER), " ".join(hx(p) for p in ps)) for ps in pipes]
+    plines = ["PIPE %s %s %s %s" % ("1" if mode == "repaired" else "0", lim_str(fw_lim), hx(MARKER), " ".join(hx(p) for p in ps)) for ps in pipes]
     pout = ctx.run_driver(plines)
     for ps, (st, data), o in zip(pipes, cimpl, pout):
         ls = split_lines(data)
         long_line = any(len(l) > 128 for l in ls)
         if long_line:
-            # the model's helper theorems are stated for HOST lines of at most 128 bytes (their hypothesis);
-            # longer ones are judged by the oracles below on the real code only
             ctx.count("pipeline_with_host_line_over_128_bytes")
+            ctx.count("pipeline_longest_host_line_bytes_2^%d" % (max(len(l) for l in ls).bit_length() - 1))
         h = impl_helper(work, data)
+        if h["limits"] != [fw_lim]:
+            ctx.disagree("helper read limit changed between cases", [hx(p)[:200] for p in ps], repr(h["limits"]), lim_str(fw_lim))
         i = "%s %s | %s" % (st, h["status"], ";".join(hx(l) for l in h["lines"]))
         ctx.case(("pipe", tuple(ps)), nontrivial=bool(h["lines"]),
                  sample=smp({"kind": "pipeline", "payloads": [repr(p[:60]) for p in ps], "hosts_lines": [l.decode("latin-1") for l in h["lines"]][:3]} if h["lines"] else None))
         ctx.count("pipeline_helper_" + h["status"].split(" ")[0])
-        if i != o and not long_line:
-            ctx.disagree("client+helper pipeline", [hx(p)[:200] for p in ps], i[:400], o[:400])
+        # EVERY pipeline is compared with the model (whose helper reads with the limit observed above), whatever the line length
+        if i != o:
+            ctx.disagree("client+helper pipeline (helper read limit %s)" % lim_str(fw_lim), [hx(p)[:200] for p in ps],
+                         i[:400] + (" ...%d" % len(i) if len(i) > 400 else ""), o[:400] + (" ...%d" % len(o) if len(o) > 400 else ""))
         rp = {"stage": "pipeline", "payloads": [hx(p) for p in ps]}
-        if long_line and st == "OK":
-            # every record the client forwarded must appear as exactly one well-formed line, under its own name
-            want = {}
-            for l in ls:
-                if l.startswith(b"HOST ") and b"," in l:
-                    nm, ip = l[5:].rstrip(b"\n").split(b",", 1)
-                    want[nm] = ip
-            have = {}
-            for l in h["lines"]:
-                f = l.split()
-                if len(f) >= 2:
-                    have[f[1]] = f[0]
+        if st == "OK" and (long_line or mode == "repaired"):
+            # oracle on the real code alone: every record the client forwarded must appear as exactly one
+            # well-formed line, under its own name with its own address
+            want, have = delivery(ls, h)
             if have != want:
-                ctx.violation("a forwarded host record with a very long name did not arrive as its own hosts-file line",
+                ctx.violation("a forwarded host record %sdid not arrive as its own hosts-file line" % ("with a very long name " if long_line else ""),
                               dict(rp, name_lengths=sorted(len(k) for k in want), helper=h["status"],
                                    missing=[k[:40].decode("latin-1") for k in want if have.get(k) != want[k]][:3]))
         bad = [l.decode("latin-1") for l in h["lines"] if not line_ok(l)]
@@ -836,8 +902,9 @@ def replay(ctx, rp):
                 h = impl_helper(work, data)
             finally:
                 shutil.rmtree(work, ignore_errors=True)
-            print("helper:", h["status"], "hosts lines:", h["lines"])
-            return h["status"] != "RUNNING" or any(not line_ok(l) for l in h["lines"]) or not h["foreign_ok"]
+            print("helper:", h["status"], "hosts lines:", [l[:120] for l in h["lines"]][:5])
+            want, have = delivery(split_lines(data), h)
+            return h["status"] != "RUNNING" or any(not line_ok(l) for l in h["lines"]) or not h["foreign_ok"] or want != have
         return False
     if r.get("stage") == "scanner":
         work = tempfile.mkdtemp(prefix="c19r.")
